@@ -258,6 +258,17 @@ func c07Reference(in decInput) decResult {
 var c07Huge sync.Mutex
 var c07Buffered atomic.Int32
 
+// c07Priors: what an earlier session left in the source buffer when it was dropped.
+var c07Priors = []struct {
+	name string
+	b    []byte
+}{
+	{"none (fresh buffers)", nil},
+	{"a complete frame was yielded and never consumed", []byte{0x82, 0x05, 'o', 'l', 'd', '!', '!'}},
+	{"one byte of a header", []byte{0x81}},
+	{"header and 16-bit length, payload incomplete", append([]byte{0x82, 0x7e, 0x01, 0x00}, make([]byte, 10)...)},
+}
+
 func c07Body(ins []decInput, tier string) func(x *engine.X) {
 	return func(x *engine.X) {
 		in := ins[x.Pick(len(ins), "input")]
@@ -279,6 +290,20 @@ func c07Body(ins []decInput, tier string) func(x *engine.X) {
 		want := c07Reference(in)
 		src := sonic.NewByteBuffer()
 		dst := sonic.NewByteBuffer()
+		// The buffers may have served an earlier session: websocket.Stream starts every (re)handshake with
+		// src.Reset(), dst.Reset() and a new codec over the same two buffers. What the earlier session left in them
+		// must not reach the new one.
+		prior := x.Pick(len(c07Priors), "earlier session on the same buffers")
+		if prior > 0 {
+			x.Guard("wsframe.Decode/panic", func() {
+				old := websocket.NewFrameCodec(src, dst, 1<<16)
+				src.Write(c07Priors[prior].b)
+				old.Decode(src)
+				src.Reset()
+				dst.Reset()
+			})
+			x.Note("earlier session: %s", c07Priors[prior].name)
+		}
 		codec := websocket.NewFrameCodec(src, dst, in.max)
 		var got decResult
 		capLimit := 2*(len(in.b)+in.max+14) + 1024
